@@ -10,7 +10,9 @@ SPEC = {
         "suffixes and look-alikes x path chains x optional query / fragment) x suffix_aware: 'v lies under u' (strict reading) => stems(u) is a prefix of "
         "stems(v) and the serialized LRU a string prefix; conversely stem-prefix => 'v lies under u' (lax reading), i.e. no false ancestors. "
         "Deductive part: lemmas of the free-monoid Key theory that the prefix queries rely on (prefix extends along added stems, stems differing at one "
-        "position are never prefixes of one another, antisymmetry) and exception freedom of lru_stems_from_parsed_url (pyvc). The ordering law between two "
+        "position are never prefixes of one another, antisymmetry), exception freedom of lru_stems_from_parsed_url and its functional contract (pyvc; see C12): the stems are scheme, port, "
+        "host labels most significant first (the public suffix as one stem when suffix-aware), path segments in order, then query, fragment, user, "
+        "password - the order that makes 'prefix of the stems' mean 'ancestor'. The ordering law between two "
         "URLs depends on how urlsplit and the PSL trie cut the host: bounded only."),
     "assumptions": ["each clause uses the reading of 'lies under' that makes it demand less (strict antecedent / lax consequent)",
                     "known finding C13-suffix-aware-suffix-boundary: with suffix_aware=True the suffix is one stem, so 'uk' is no LRU ancestor of 'x.co.uk'"],
